@@ -42,9 +42,45 @@ func genUnsolicited(r *Rng, ts []pduType, seq int32) []byte {
 			continue
 		}
 		if k, _, s := classifyFrame(f); k == "pdu" && s == seq {
+			switch r.Intn(8) {
+			case 0:
+				return oddFrame(r, f, 1)
+			case 1:
+				return oddFrame(r, f, 2)
+			}
 			return f
 		}
 	}
+}
+
+// oddFrame puts the same PDU on the wire in a form of which the decoder consumes only a part, as a peer may:
+// kind 1: a non-zero command_status followed by a body (decoding stops after the header; e.g. submit_sm_resp
+// ESME_RTHROTTLED with an empty message_id); kind 2: octets behind a decodable body, inside command_length.
+// The result decodes to a PDU with the same command_id and sequence number, or f is returned unchanged.
+func oddFrame(r *Rng, f []byte, kind int) []byte {
+	if len(f) < 16 {
+		return f
+	}
+	_, id0, seq0 := classifyFrame(f)
+	g := append([]byte(nil), f...)
+	switch kind {
+	case 1:
+		if binary.BigEndian.Uint32(g[8:12]) == 0 {
+			binary.BigEndian.PutUint32(g[8:12], uint32(r.Pick([]int{0x58, 0x14, 0x45, 1 + r.Intn(0x400)})))
+		}
+		if len(g) == 16 {
+			g = append(g, make([]byte, 1+r.Intn(3))...) // e.g. the NUL of an empty C-octet string
+		}
+	default:
+		for i, n := 0, 1+r.Intn(40); i < n; i++ {
+			g = append(g, byte(r.Intn(256)))
+		}
+	}
+	binary.BigEndian.PutUint32(g[0:4], uint32(len(g)))
+	if k, id, s := classifyFrame(g); k == "pdu" && id == id0 && s == seq0 {
+		return g
+	}
+	return f
 }
 
 // pduHeader: every registered type starts with its Header.
